@@ -17,7 +17,8 @@
    Encodings: protocol version (3, n) is the integer n; suites, groups are wire ids; settings
    names are indices into handshakesettings' ALL_* tables; a signature scheme is hash*256+sig;
    outcome Err (OtherExn (1000+d)) = client raised alert d, 2000+d = server raised alert d,
-   1900 / 2900 = client / server died with a Python exception and no alert. *)
+   1900 / 2900 = client / server died with a Python exception and no alert,
+   1800 = the client refused its own configuration with ValueError before sending anything. *)
 From Coq Require Import ZArith List Bool.
 From TV Require Import Base.Prelude Gen.C03Tables.
 Import ListNotations.
@@ -36,6 +37,10 @@ Definition client_alert {A} (d : Z) : res A := Err (OtherExn (1000 + d)).
 Definition server_alert {A} (d : Z) : res A := Err (OtherExn (2000 + d)).
 Definition client_crash {A} : res A := Err (OtherExn 1900).
 Definition server_crash {A} : res A := Err (OtherExn 2900).
+(* a site that dies with a Python exception in the unrepaired tree and sends alert d once the
+   corresponding repair (flag from Gen/C03Tables.v) is present; who = 1000 client / 2000 server *)
+Definition crash_or {A} (repaired : bool) (who d : Z) : res A :=
+  if repaired then Err (OtherExn (who + d)) else Err (OtherExn (who + 900)).
 
 Definition a_handshake_failure := 40.
 Definition a_illegal_parameter := 47.
@@ -264,7 +269,8 @@ Definition client_offer (c : Client) : res CHello :=
   let shares := st_shares st in
   let groups := client_groups c in
   match sigalgs with
-  | Some [] => client_crash                              (* `assert sig_list` *)
+  | Some [] => if fix_sigalg_assert then Err (OtherExn 1800)   (* repaired: ValueError, configuration refused *)
+               else client_crash                         (* `assert sig_list` *)
   | _ =>
   Ok {| ch_ver := Z.min (st_maxV st) 3;
         ch_suites := scsv_renego :: suites ++ (if cl_fallback c then [scsv_fallback] else []);
@@ -351,6 +357,9 @@ Definition server_select_suite (s : Server) (ch : CHello) (v : Z) (suites : list
   let c1 := filter_for_certificate suites (sv_cert s) in
   let prfs := map snd (filter (fun p => memZ (fst p) (ch_psk_ids ch)) (st_psks st)) in
   let c2 := match prfs with [] => c1 | _ => filter_for_prfs c1 prfs end in
+  (* repaired server: EdDSA certificates are refused with an alert before TLS 1.2 *)
+  if fix_eddsa_server && (v <? 3) && (match sv_cert s with Some c => (ct_alg c =? 3) || (ct_alg c =? 4) | None => false end)
+  then server_alert a_handshake_failure else
   match first_matching c2 (ch_suites ch) with
   | None =>
       if (match ch_groups ch with Some cg => existsb is_ffdhe_id cg | None => false end)
@@ -463,7 +472,7 @@ Definition server_legacy (s : Server) (ch : CHello) (v suite : Z) : res (Flight 
              else None in
   let etm := st_etm st && ch_etm ch && negb (memZ suite streamSuites) && negb (memZ suite aeadSuites) in
   ems <- (if st_ems st then
-            if ch_ems ch then Ok true
+            if ch_ems ch && (negb fix_ems_sslv3_server || (0 <? v)) then Ok true
             else if st_req_ems st then server_alert a_insufficient_security else Ok false
           else Ok false) ;;
   alpn <- (match ch_alpn ch, sv_alpn s with
@@ -492,7 +501,7 @@ Definition server_legacy (s : Server) (ch : CHello) (v suite : Z) : res (Flight 
                match first_matching cg (st_dhgroups st) with
                | Some g => Ok (Some g, assoc g ffdhe_bits)
                | None => if existsb is_ffdhe_id cg && negb (match st_dhgroups st with [] => true | _ => false end)
-                         then (if memZ suite anonSuites then server_crash   (* _serverAnonKeyExchange catches nothing *)
+                         then (if memZ suite anonSuites then crash_or fix_internal_error_anon 2000 a_internal_error
                                else server_alert a_internal_error)
                          else Ok (None, Some (st_dh_bits st))
                end
@@ -510,7 +519,7 @@ Definition server_legacy (s : Server) (ch : CHello) (v suite : Z) : res (Flight 
   let signed := authed && negb (memZ suite certSuites) in
   (* an rsa-pss key cannot make the MD5+SHA1 PKCS#1 signature of TLS < 1.2: TLSInternalError *)
   _ <- (if signed && (v <? 3) && (match sv_cert s with Some c => ct_alg c =? 1 | None => false end)
-        then (if kex =? 3 then server_crash        (* _serverSRPKeyExchange does not catch TLSInternalError *)
+        then (if kex =? 3 then crash_or fix_internal_error_srp 2000 a_internal_error
               else server_alert a_internal_error) else Ok tt) ;;
   (* an EdDSA key has no pre-TLS 1.2 signing mode: TypeError in the server, no alert *)
   _ <- (if signed && (v <? 3) && (match sv_cert s with Some c => (ct_alg c =? 3) || (ct_alg c =? 4) | None => false end)
@@ -553,6 +562,9 @@ Definition client_legacy (c : Client) (ch : CHello) (fl : Flight)
              | _, _ => None end in
   let kex := kex_of suite in
   let authed := memZ suite certAllSuites || memZ suite ecdheEcdsaSuites || memZ suite dheDsaSuites in
+  let my_cert := match fl_cert_req fl with Some _ => cl_cert c | None => None end in
+  (* repaired client: an SSLv3 ServerHello must not carry extended_master_secret *)
+  _ <- (if fix_ems_sslv3_client && (v =? 0) && fl_ems fl then client_alert a_illegal_parameter else Ok tt) ;;
   _ <- (if authed then
           match fl_cert fl with
           | Some sc =>
@@ -564,9 +576,21 @@ Definition client_legacy (c : Client) (ch : CHello) (fl : Flight)
           | None => client_alert a_illegal_parameter
           end
         else Ok tt) ;;
+  (* repaired client: minKeySize / maxKeySize also bound the Diffie-Hellman prime *)
+  _ <- (if fix_dh_size && (kex =? 1) then
+          match fl_dh_bits fl with
+          | Some b => if (b <? st_min_key st) || (st_max_key st <? b)
+                      then client_alert a_insufficient_security else Ok tt
+          | None => Ok tt end
+        else Ok tt) ;;
   _ <- (match fl_cert_req fl with
         | Some algs => if (v =? 3) && negb (existsb (fun a => a mod 256 =? sa_rsa) algs)
                        then client_alert a_handshake_failure else Ok tt
+        | None => Ok tt end) ;;
+  (* repaired client: an EdDSA certificate is refused with an alert before TLS 1.2 *)
+  _ <- (match my_cert with
+        | Some mc => if fix_eddsa_client && (v <? 3) && ((ct_alg mc =? 3) || (ct_alg mc =? 4))
+                     then client_alert a_handshake_failure else Ok tt
         | None => Ok tt end) ;;
   _ <- (if kex =? 3 then
           match fl_srp_bits fl with
@@ -584,12 +608,11 @@ Definition client_legacy (c : Client) (ch : CHello) (fl : Flight)
         else Ok tt) ;;
   (* the extended master secret has no SSLv3 form: calc_key asserts, on both sides, no alert *)
   _ <- (if (v =? 0) && fl_ems fl then client_crash else Ok tt) ;;
-  let my_cert := match fl_cert_req fl with Some _ => cl_cert c | None => None end in
   cv <- (match fl_cert_req fl, my_cert with
          | Some algs, Some mc =>
              if v =? 3 then match client_cv_alg st mc algs with
                             | Some a => Ok (Some a)
-                            | None => client_crash          (* validSigAlgs[0]: IndexError *)
+                            | None => crash_or fix_sigalg_tls12 1000 a_handshake_failure   (* validSigAlgs[0]: IndexError *)
                             end
              else Ok None
          | _, _ => Ok None end) ;;
@@ -714,7 +737,7 @@ Definition client_tls13 (c : Client) (ch : CHello) (fl : Flight)
          | Some algs, Some mc =>
              match first_matching (sig_hashes_to_list st (ct_small_key mc) (Some mc) 4) algs with
              | Some a => Ok (Some a)
-             | None => client_crash                    (* toRepr(None) -> getattr fails *)
+             | None => crash_or fix_sigalg_tls13 1000 a_handshake_failure   (* toRepr(None) -> getattr fails *)
              end
          | _, _ => Ok None end) ;;
   let limits := match fl_rsl fl, st_rsl st with
@@ -741,11 +764,13 @@ Definition server_tls13_finish (s : Server) (fl : Flight) (sv : View)
   chain <- (match fl_cert_req fl, ccert with
             | Some _, Some cc =>
                 match cv with
-                | Some a => if memZ a (sig_hashes_to_list st false (Some cc) 4) then Ok (Some (ct_id cc))
+                | Some a => if memZ a (sig_hashes_to_list st false (Some cc) 4) then
+                              (* unrepaired: no _check_certchain_with_settings here, the key size / curve
+                                 policy of the server is not applied to a TLS 1.3 client certificate *)
+                              _ <- (if fix_tls13_client_key then check_chain 2000 st (fl_version fl) cc else Ok tt) ;;
+                              Ok (Some (ct_id cc))
                             else server_alert a_illegal_parameter
                 | None => server_alert a_illegal_parameter end
-                (* no _check_certchain_with_settings here: the key size / curve policy of the
-                   server is not applied to a TLS 1.3 client certificate *)
             | _, _ => Ok None end) ;;
   Ok {| vw_version := vw_version sv; vw_suite := vw_suite sv; vw_etm := vw_etm sv; vw_ems := vw_ems sv;
         vw_alpn := vw_alpn sv; vw_npn := None; vw_sni := vw_sni sv;
@@ -760,7 +785,8 @@ Definition client_check_hello (c : Client) (ch : CHello) (fl : Flight) : res uni
   if v <? st_minV st then client_alert a_protocol_version
   else if (st_maxV st <? v) && negb (memZ v (st_versions st)) then client_alert a_protocol_version
   else if negb (memZ (fl_suite fl) (filter_for_version (ch_suites ch) v v)) then client_alert a_illegal_parameter
-  else if negb (fl_ems fl && (v <=? 3)) && st_req_ems st then client_alert a_insufficient_security
+  else if (if fix_req_ems_tls13 then (v <=? 3) && negb (fl_ems fl) else negb (fl_ems fl && (v <=? 3)))
+          && st_req_ems st then client_alert a_insufficient_security
   else if (v <=? 3) && (match fl_alpn fl, ch_alpn ch with
                          | Some p, Some l => negb (memZ p l) | Some _, None => true | None, _ => false end)
        then client_alert a_illegal_parameter
